@@ -106,6 +106,12 @@ def cases(tier, seed):
         out.append({'k': 'blif', 'text': shift2, 'K': 3, 'merge': merge, 'tag': 'hier:shift2'})
         out.append({'k': 'blif', 'text': gated, 'pre': shift2, 'K': 1, 'merge': merge, 'tag': 'hier:second-import-after-clocked-one'})
         out.append({'k': 'blif', 'text': shift2, 'pre': gated, 'K': 3, 'merge': merge, 'tag': 'hier:clocked-import-after-gated-one'})
+    # top_model= names the model to build (not the first one listed); the models share their port names
+    two = ('.model wrapper\n.inputs a b\n.outputs y\n.subckt core a=a b=b y=n\n.names n y\n0 1\n.end\n'
+           '.model core\n.inputs a b\n.outputs y\n.names a b y\n11 1\n.end\n')
+    for top in (None, 'core', 'wrapper'):
+        for wb in ('same', 'foreign'):
+            out.append({'k': 'blif', 'text': two, 'K': 1, 'top': top, 'wb': wb, 'tag': 'top_model:%s%s' % (top, ':block=' if wb == 'foreign' else '')})
     # an empty cover is the constant 0 whether or not the .names line lists inputs
     t = '.model top\n.inputs a b\n.outputs y z\n.names a b n\n.names n a y\n01 1\n10 1\n.names z\n.end\n'
     out.append({'k': 'blif', 'text': t, 'K': 1, 'tag': 'cover:empty-with-inputs'})
@@ -240,6 +246,8 @@ def import_block(case, rec):
                 pyrtl.input_from_blif(case['pre'], merge_io_vectors=case.get('merge', True))
                 pyrtl.reset_working_block()
                 del rec[:]
+            if case.get('top'):
+                kwb['top_model'] = case['top']
             pyrtl.input_from_blif(case['text'], merge_io_vectors=case.get('merge', True), **kwb)
         else:
             import io
@@ -277,7 +285,7 @@ def run_case(case, ob, tier):
     if case['k'] == 'blif' and case['tag'].startswith('repo:'):
         # a text whose signals are not all driven (flops commented out) defines no function: nothing to compare
         models_, top_ = bliftrans.parse_blif(case['text'])
-        flat_ = bliftrans.Flat(models_, top_)
+        flat_ = bliftrans.Flat(models_, case.get('top') or top_)
         try:
             flat_.eval_cycle({n: False for n in flat_.inputs}, {q: False for q, _k, _d in flat_.state})
         except KeyError as e:
@@ -306,7 +314,7 @@ def run_case(case, ob, tier):
     goals = []
     if case['k'] == 'blif':
         models, top = bliftrans.parse_blif(case['text'])
-        flat = bliftrans.Flat(models, top)
+        flat = bliftrans.Flat(models, case.get('top') or top)
         # initial state per Q in the oracle, matched to the Register recorded for that Q (creation order = text order)
         state = {}
         regq = {}
@@ -378,7 +386,7 @@ def replay(cex):
         return x.get(str(t), x.get(t, 0))
     if case['k'] == 'blif':
         models, top = bliftrans.parse_blif(case['text'])
-        flat = bliftrans.Flat(models, top)
+        flat = bliftrans.Flat(models, case.get('top') or top)
         state = {}
         for (qname, kind, data), (orig_name, reg) in zip(flat.state, rec):
             state[qname] = (data[1] == '1') if (kind == 'latch' and data[1] in ('0', '1')) else bool(mv.get('regs', {}).get(reg.name, 0))
